@@ -43,6 +43,7 @@ type c14Case struct {
 	CutAt       int       `json:"cut_at"`
 	End         string    `json:"end"`
 	CloseAfter  int       `json:"close_after_reads"`
+	ReuseBuffer bool      `json:"application_reuses_its_read_buffer"`
 	CloseAtEnd  bool      `json:"close_after_end_of_body"` // the application closes the body after it has seen EOF / an error (defer Body.Close())
 	CloseFails  bool      `json:"inner_close_fails"`
 	Named       bool      `json:"has_test_name"`
@@ -323,6 +324,7 @@ func c14Run(t *testing.T, tape *simrt.Tape, o simwork.Opts) *simwork.Result {
 		cs.CloseAfter = tape.Choose(6, "closeafter")
 	}
 	cs.End = []string{"eof", "eof-with-data", "error", "stall", "error-with-data"}[endKind]
+	cs.ReuseBuffer = tape.Bool(1, 2, "reuse-buffer")
 	if cs.CloseAfter < 0 && tape.Bool(1, 2, "close-at-end") {
 		cs.CloseAtEnd = true
 		cs.CloseFails = tape.Bool(1, 3, "close-fails")
@@ -349,6 +351,7 @@ func c14Run(t *testing.T, tape *simrt.Tape, o simwork.Opts) *simwork.Result {
 	var (
 		appClosedAtEnd bool
 		appCloseErr    error
+		reused         []byte
 	)
 	readSizes := func() int { return []int{1, 2, 3, 5, 7, 64, 512, 32 * 1024}[tape.Choose(8, "bufsize")] }
 	// consume reads r the way an application would and returns the app-side log
@@ -359,7 +362,18 @@ func c14Run(t *testing.T, tape *simrt.Tape, o simwork.Opts) *simwork.Result {
 				_ = r.Close()
 				return log
 			}
-			buf := make([]byte, readSizes())
+			size := readSizes()
+			var buf []byte
+			if cs.ReuseBuffer {
+				// an application that reads into one buffer again and again
+				// (io.Copy, bufio): what a Read returned is overwritten by the next
+				if cap(reused) < size {
+					reused = make([]byte, 32*1024)
+				}
+				buf = reused[:size]
+			} else {
+				buf = make([]byte, size)
+			}
 			n, err := r.Read(buf)
 			log = append(log, ioRec{N: n, Err: err, Data: string(buf[:n])})
 			if err != nil {
@@ -482,7 +496,21 @@ func c14Run(t *testing.T, tape *simrt.Tape, o simwork.Opts) *simwork.Result {
 						break
 					}
 				}
-				wn, err := w.Write(data[pos : pos+n])
+				chunk := data[pos : pos+n]
+				if cs.ReuseBuffer {
+					// a handler that writes from one scratch buffer (bufio flushes, io.Copy)
+					if cap(reused) < n {
+						reused = make([]byte, n+1024)
+					}
+					chunk = reused[:n]
+					copy(chunk, data[pos:pos+n])
+				}
+				wn, err := w.Write(chunk)
+				if cs.ReuseBuffer {
+					for i := range chunk {
+						chunk[i] = 0xEE // the buffer is the handler's again
+					}
+				}
 				handlerLog = append(handlerLog, ioRec{N: wn, Err: err, Data: string(data[pos : pos+n])})
 				cs.Chunks = append(cs.Chunks, n)
 				if err != nil {
